@@ -36,6 +36,10 @@ type Interp struct {
 	inited   map[*ssa.Package]bool
 	natives  map[string]*Object // native singletons
 	curFrame *frame
+	// watchShared > 0: stores into objects that existed before the harness started (package-level state and what it
+	// reaches: allocated during package initialisation) are recorded as findings (verifShared)
+	watchShared  int
+	sharedSeen   map[string]bool
 }
 
 type deferred struct {
@@ -468,11 +472,17 @@ func (fr *frame) runBlock() {
 			if p.isNil() {
 				panic(goPanic{val: "invalid memory address or nil pointer dereference (store)", where: in.where(ins)})
 			}
+			if in.watchShared > 0 && p.obj.id <= in.eng.snapNextID {
+				in.noteSharedWrite(p.obj.typ, fr)
+			}
 			p.store(fr.get(x.Val))
 		case *ssa.MapUpdate:
 			m := fr.get(x.Map).(*MapObj)
 			if m == nil {
 				panic(goPanic{val: "assignment to entry in nil map", where: in.where(ins)})
+			}
+			if in.watchShared > 0 && m.id <= in.eng.snapNextID {
+				in.noteSharedWrite(x.Map.Type(), fr)
 			}
 			in.mapSet(m, fr.get(x.Key), fr.get(x.Value))
 		case *ssa.DebugRef:
@@ -915,4 +925,23 @@ func typeStr(t types.Type) string {
 		return "nil"
 	}
 	return t.String()
+}
+
+// noteSharedWrite records a store into state that is shared between evaluations (it existed before the harness
+// ran). Two evaluations running concurrently would both perform it: a data race.
+func (in *Interp) noteSharedWrite(t types.Type, fr *frame) {
+	label := "C18/write-to-state-shared-between-evaluations " + typeStr(t) + " in " + fr.info.name
+	if in.sharedSeen == nil {
+		in.sharedSeen = map[string]bool{}
+	}
+	if in.sharedSeen[label] {
+		return
+	}
+	in.sharedSeen[label] = true
+	m := in.finalModel()
+	if m == nil {
+		in.noteIncomplete("unknown", "no model for a shared-write finding")
+		return
+	}
+	in.recordFailure("race", label, "", m)
 }
